@@ -63,6 +63,19 @@ def handle (j : Json) : Json :=
       let acc := accept u p
       jObj [("p", jRat p), ("accept", Json.bool acc)]
     | _, _, _ => jErr "bad-args"
+  | some "keep" =>
+    -- add_single_qp_to_tree: u, tree.logweight, neg_energy of the new leaf
+    match fRat? j "u", fRat? j "w_old", fRat? j "neg_energy" with
+    | some u, some w, some e =>
+      let p := keepProb expRat w e
+      jObj [("p", jRat p), ("remain", Json.bool (accept u p))]
+    | _, _, _ => jErr "bad-args"
+  | some "merge" =>
+    match fRat? j "u", fRat? j "w_new", fRat? j "w_cur", fBool? j "bias" with
+    | some u, some wn, some wc, some b =>
+      let p := mergeProb expRat b wn wc
+      jObj [("p", jRat p), ("take_new", Json.bool (accept u p))]
+    | _, _, _, _ => jErr "bad-args"
   | some "slots" =>
     match fNat? j "n" with
     | some n =>
